@@ -12,4 +12,5 @@ if echo "$out" | grep -q "Build completed successfully"; then res="BUILD OK"; el
   for l in $lines; do th=$(head -n $l $W/lean/RsddModel/Props/TieDnnf.lean | grep -o "^theorem [a-z_A-Z0-9]*" | tail -1 | sed 's/theorem //'); ths="$ths $th"; done
   res="TIE FAILS:$(echo $ths | tr ' ' '\n' | sort -u | tr '\n' ' ')"; fi
 fi
-echo "$label | $res | ${untr:-all translated}"
+diff=$(echo "$st" | grep DIFFERS | cut -c1-120 | tr '\n' ';')
+echo "$label | $res | ${untr:-${diff:-all translated}}${untr:+$diff}"
